@@ -357,6 +357,11 @@ def o_delay(v: View, stats=None):
                 yield "strategy-wrong-classification-object", f"attempt {s.i}: strategy did not receive the classifier's Classification object"
         # expected delay
         val = num(value)
+        if isinstance(val, int) and not isinstance(val, bool) and abs(val) > 2**1000:
+            # beyond float range but finite: "capped at the time remaining" (negative: replaced by 0)
+            if stats is not None:
+                stats["huge_int_values"] = stats.get("huge_int_values", 0) + 1
+            val = 1e308 if val > 0 else -1e308
         sv = val if (isinstance(val, (int, float)) and math.isfinite(val)) else 0.0
         sv = max(0.0, sv)
         if stats is not None:
